@@ -1415,4 +1415,75 @@ Section Sound.
         * intros _ mid _ Ha. destruct mid; discriminate.
         * intros H mid Hg Ha. apply andb_true_iff in H. destruct H as [_ H]. destruct mid as [|mid]; cbn in Hg; [discriminate|]. eapply IHs; eauto.
   Qed.
+
+  (* ================================ Part 3: from the description to the range ====================== *)
+  (* ---- what is inside a message is not longer than its encoding ---- *)
+  Notation EM := (emit sch false).
+
+  Lemma child_le_field f s m x : f_ty f = TMsg m -> In x (RoundTrip.elems_of f s) ->
+    (length (EM m x) <= length (emit_field false EM f s))%nat.
+  Proof.
+    intros Ht Hx. unfold RoundTrip.elems_of, emit_field in *. rewrite Ht.
+    pose proof (RoundTrip.lenpfx_len (EM m x)) as Hp.
+    destruct (f_shape f) as [|packed|oi|kk].
+    - destruct s; try contradiction; destruct Hx as [<-|[]]; rewrite app_length; lia.
+    - destruct s; try contradiction. cbn [RoundTrip.lst] in Hx. destruct l as [|e l]; [contradiction|]. destruct packed.
+      + rewrite app_length. pose proof (RoundTrip.in_concat_le (emit_elem EM (TMsg m)) (e :: l) x Hx) as H1. cbn [emit_elem] in H1.
+        pose proof (RoundTrip.lenpfx_len (concat (map (emit_elem EM (TMsg m)) (e :: l)))). cbn [emit_elem] in *. lia.
+      + pose proof (RoundTrip.in_concat_le (fun y => key_bytes (f_num f) (ftype_wt (TMsg m)) ++ emit_elem EM (TMsg m) y) (e :: l) x Hx) as H1.
+        cbv beta in H1. rewrite app_length in H1. cbn [emit_elem] in *. lia.
+    - destruct s; try contradiction. destruct Hx as [<-|[]]. rewrite app_length. cbn [emit_elem]. lia.
+    - destruct s; try contradiction. cbn [RoundTrip.mp] in Hx. apply in_map_iff in Hx. destruct Hx as (kv & <- & Hkv).
+      rewrite map_map. cbn [snd].
+      pose proof (RoundTrip.in_concat_le (fun kv0 => emit_entry EM (f_num f) kk (TMsg m) kv0) kvs kv Hkv) as H1. cbv beta in H1.
+      unfold emit_entry at 1 in H1. rewrite app_length in H1.
+      pose proof (RoundTrip.lenpfx_len (key_bytes 1 (kind_wt kk) ++ scalar_payload kk (fst kv) ++ key_bytes 2 (ftype_wt (TMsg m)) ++ emit_elem EM (TMsg m) (snd kv))) as H2.
+      rewrite !app_length in H2. cbn [emit_elem] in *. pose proof (RoundTrip.lenpfx_len (EM m (snd kv))). lia.
+  Qed.
+
+  Lemma field_le_emit mid md slots unk i f s : get_msg sch mid = Some md ->
+    nth_error (m_fields md) i = Some f -> nth_error slots i = Some s ->
+    (length (emit_field false EM f s) <= length (EM mid (VMsg slots unk)))%nat.
+  Proof.
+    intros Hg Hf Hs. rewrite RoundTrip.emit_unfold, Hg, app_length.
+    pose proof (RoundTrip.wf_get_msg sch mid md Hwf Hg) as Hmd.
+    set (per := RoundTrip.zipf (fun f0 s0 => (f0, emit_field false EM f0 s0)) (m_fields md) slots).
+    assert (Hmem : forall p j, In p per -> f_shape (fst p) = Member j -> (j < m_oneofs md)%nat).
+    { intros p j Hp Hj. unfold per in Hp. apply RoundTrip.zipf_in in Hp. destruct Hp as (k & g & s0 & Hg0 & _ & ->). cbn [fst] in Hj.
+      destruct (RoundTrip.msg_wf_field sch md k g Hmd Hg0) as [Hfw _]. apply RoundTrip.field_wf_shape in Hfw. rewrite Hj in Hfw. exact Hfw. }
+    pose proof (RoundTrip.in_assemble_le md per (f, emit_field false EM f s) Hmem) as H. cbn [snd] in H.
+    assert (In (f, emit_field false EM f s) per).
+    { unfold per. apply nth_error_In with (n := i). apply (RoundTrip.zipf_nth_error (fun f0 s0 => (f0, emit_field false EM f0 s0))); assumption. }
+    specialize (H H0). lia.
+  Qed.
+
+  Definition small (mid : nat) (v : val) : Prop := N.of_nat (length (EM mid v)) < two63.
+
+  Lemma small_child mid md slots unk i f s m x : get_msg sch mid = Some md ->
+    nth_error (m_fields md) i = Some f -> nth_error slots i = Some s -> f_ty f = TMsg m ->
+    In x (RoundTrip.elems_of f s) -> small mid (VMsg slots unk) -> small m x.
+  Proof.
+    intros Hg Hf Hs Ht Hx Hsm. unfold small in *.
+    pose proof (child_le_field f s m x Ht Hx). pose proof (field_le_emit mid md slots unk i f s Hg Hf Hs). lia.
+  Qed.
+
+  (* the value of an Any *)
+  Lemma any_value_small mid md u bs : get_msg sch mid = Some md ->
+    m_fields md = [fld 1 (TScalar KString) Singular; fld 2 (TScalar KBytes) Singular] ->
+    small mid (VMsg [VBytes u; VBytes bs] []) -> N.of_nat (length bs) < two63.
+  Proof.
+    intros Hg Hl Hsm. unfold small in Hsm.
+    pose proof (field_le_emit mid md [VBytes u; VBytes bs] [] 1 (fld 2 (TScalar KBytes) Singular) (VBytes bs) Hg) as H.
+    rewrite Hl in H. specialize (H eq_refl eq_refl). unfold emit_field in H. cbn [f_shape f_ty fld f_num] in H.
+    destruct (present KBytes (VBytes bs)) eqn:Ep.
+    - rewrite app_length in H. pose proof (RoundTrip.as_bytes_le_payload KBytes (VBytes bs) eq_refl) as H2. cbn [as_bytes] in H2. lia.
+    - unfold present, blen in Ep. cbn [as_bytes] in Ep. apply negb_false_iff, N.eqb_eq in Ep. unfold two63. lia.
+  Qed.
+
+  Lemma marshal_len tm pv bs : pulsar_marshal sch false tm pv = Ok bs -> (length (EM tm pv) <= length bs)%nat.
+  Proof.
+    unfold pulsar_marshal. destruct (N.of_nat (length (EM tm pv)) =? msg_size sch tm pv); [intros E; injection E as <-; lia|].
+    destruct (msg_size sch tm pv <? N.of_nat (length (EM tm pv))); [discriminate|].
+    intros E. injection E as <-. rewrite app_length. lia.
+  Qed.
 End Sound.
